@@ -19,7 +19,9 @@ EXTENDS Naturals, Sequences, FiniteSets, TLC, FiniteSetsExt, Functions, Sequence
 CONSTANT Tier
 
 \* keys: A, B (EC, kid = name) and N (EC, published WITHOUT a key id); X is never published
-KidOfKey(k) == IF k = "N" THEN "" ELSE k
+\* E: an RSA ENCRYPTION key (use = enc) that is published under the same key id as the signing key A - never a candidate for signatures
+KidOfKey(k) == IF k = "N" THEN "" ELSE IF k = "E" THEN "A" ELSE k
+PubSetsE  == {<<"E", "A">>, <<"A", "E">>, <<"E", "A", "B">>, <<"E">>, <<"A">>}
 PubSetsAB == {<<>>, <<"A">>, <<"B">>, <<"A", "B">>}
 PubSetsN  == PubSetsAB \cup {<<"N">>, <<"A", "N">>, <<"B", "N">>}
 KidForms == {"own", "none", "other"}
@@ -40,15 +42,20 @@ Progs(n, A, V) ==
 \*           "plain" = keys A, B, tokens with their own key id or none (longer programs) ;
 \*           "kidless" = keys A, B, N, with and without rp.SkipRemoteCheck (a kid-less cached key is final for kid-less tokens)
 Plain == {"own", "none"}
-Variants == IF Tier = "quick" THEN {<<1, "full">>, <<2, "full">>, <<3, "full">>, <<4, "plain">>, <<1, "kidless">>, <<2, "kidless">>, <<3, "kidlessPlain">>}
-            ELSE {<<1, "full">>, <<2, "full">>, <<3, "full">>, <<4, "full">>, <<5, "plain">>, <<1, "kidless">>, <<2, "kidless">>, <<3, "kidless">>, <<4, "kidlessPlain">>}
-Groups == {<<i, v, sk>> \in PubSetsN \X Variants \X BOOLEAN :
-             /\ (v[2] \in {"full", "plain"} => (i \in PubSetsAB /\ ~sk)) }
+Variants == IF Tier = "quick" THEN {<<1, "full">>, <<2, "full">>, <<3, "full">>, <<4, "plain">>, <<1, "kidless">>, <<2, "kidless">>, <<3, "kidlessPlain">>,
+                                    <<1, "sharedKid">>, <<2, "sharedKid">>}
+            ELSE {<<1, "full">>, <<2, "full">>, <<3, "full">>, <<4, "full">>, <<5, "plain">>, <<1, "kidless">>, <<2, "kidless">>, <<3, "kidless">>, <<4, "kidlessPlain">>,
+                  <<1, "sharedKid">>, <<2, "sharedKid">>, <<3, "sharedKid">>}
+Groups == {<<i, v, sk>> \in (PubSetsN \cup PubSetsE) \X Variants \X BOOLEAN :
+             /\ (v[2] \in {"full", "plain"} => (i \in PubSetsAB /\ ~sk))
+             /\ (v[2] = "sharedKid" <=> i \in PubSetsE \ PubSetsN) \/ (i = <<"A">> /\ v[2] \in {"sharedKid", "full", "plain", "kidless", "kidlessPlain"})
+             /\ (v[2] = "sharedKid" => ~sk)
+             /\ (v[2] # "sharedKid" => i \in PubSetsN) }
 CasesOf(g) ==
   LET var == g[2][2]
-      ps == IF var \in {"full", "plain"} THEN PubSetsAB ELSE PubSetsN
-      sg == IF var \in {"full", "plain"} THEN {"A", "B", "X"} ELSE {"A", "B", "N", "X"}
-      kf == IF var \in {"plain", "kidlessPlain"} THEN Plain ELSE KidForms IN
+      ps == IF var \in {"full", "plain"} THEN PubSetsAB ELSE IF var = "sharedKid" THEN PubSetsE ELSE PubSetsN
+      sg == IF var \in {"full", "plain", "sharedKid"} THEN {"A", "B", "X"} ELSE {"A", "B", "N", "X"}
+      kf == IF var \in {"plain", "kidlessPlain", "sharedKid"} THEN Plain ELSE KidForms IN
   {[init |-> g[1], steps |-> p, skip |-> g[3]] : p \in Progs(g[2][1], Steps(ps, sg, kf), VSteps(ps, sg, kf))}
 
 -----------------------------------------------------------------------------
@@ -57,7 +64,8 @@ KidOf(s) == CASE s.kid = "own" -> KidOfKey(s.by) [] s.kid = "none" -> "" [] OTHE
 
 \* oidc.FindMatchingKey over keys of one type with use=sig: exact key-id match, else the only candidate among the kid-less keys
 \* (every key is a candidate for a kid-less token)
-Find(kid, keys) ==
+Find(kid, all) ==
+  LET keys == all \ {"E"} IN          \* the use / type filter comes first
   IF kid # "" /\ \E k \in keys : KidOfKey(k) = kid THEN CHOOSE k \in keys : KidOfKey(k) = kid
   ELSE LET cand == {k \in keys : KidOfKey(k) = "" \/ kid = ""} IN
        IF Cardinality(cand) = 1 THEN CHOOSE k \in cand : TRUE ELSE "none"
